@@ -714,7 +714,7 @@ class LsFixProp(PipeProp):
         out.traces += len(info["instances"])
 
     def corpus(self, tier, seed, instances=None):
-        n = 220 if tier == "quick" else 2000
+        n = 440 if tier == "quick" else 2200
         return pipeline.corpus(tier, seed, "release", n=n, tag="lsfix", cmd=("ls", "--mode", "fix"),
                                only_slots=True, seed_shift=31, instances=instances, per_instance_timeout=120)
 
@@ -787,7 +787,7 @@ class LsCandProp(PipeProp):
                      "SM:no_conflict", "SM:conflict_gets_new_vehicle", "HH", "RN:trip", "RN:slot", "RN:vehicle_deleted"]
 
     def corpus(self, tier, seed, instances=None):
-        n = 48 if tier == "quick" else 600
+        n = 88 if tier == "quick" else 660
         steps = 4 if tier == "quick" else 8
 
         def extra(k, I):
